@@ -291,6 +291,9 @@ class _Folder:
                     sub = _Folder(self.prog, m, cenv, self.depth + 1, self.stack, self._all_assumptions())
                     body, _l = sub.block(m.node.body)
                     body = [b for b in body if not isinstance(b, ast.Pass)]
+                    as_expr = _guards_as_expression(body)
+                    if as_expr is not None and len(body) > 1:
+                        body = [ast.copy_location(ast.Return(value=as_expr), body[-1])]
                     if len(body) == 1 and isinstance(body[0], ast.Return) and body[0].value is not None:
                         uses = {}
                         for x in ast.walk(body[0].value):
@@ -627,6 +630,20 @@ def residual(prog: Program, fn: FuncInfo, bindings: Dict[str, Any], depth: int =
     return out
 
 
+def _guards_as_expression(body: List[ast.stmt]) -> Optional[ast.expr]:
+    """`if c1: return A` ... `return Z` (guard clauses only, every return with a value)  ->  `A if c1 else ... Z`."""
+    if not body or not isinstance(body[-1], ast.Return) or body[-1].value is None:
+        return None
+    expr = body[-1].value
+    for st in reversed(body[:-1]):
+        if isinstance(st, ast.If) and not st.orelse and len(st.body) == 1 and isinstance(st.body[0], ast.Return) and \
+                st.body[0].value is not None:
+            expr = ast.copy_location(ast.IfExp(test=st.test, body=st.body[0].value, orelse=expr), st)
+        else:
+            return None
+    return expr
+
+
 def _constant_stream(e: ast.expr):
     """An endless stream of constants written with itertools: ('repeat', c) for `repeat(c)`;
     ('head', [c1..], c) for `chain((c1, ..), repeat(c))` / `chain([c1], repeat(c))`.  None otherwise."""
@@ -654,6 +671,47 @@ def _streams_to_comprehensions(stmts: List[ast.stmt]) -> List[ast.stmt]:
     v = ret.value
     if isinstance(v, ast.Call) and isinstance(v.func, ast.Name) and v.func.id in ('list', 'tuple') and len(v.args) == 1 and not v.keywords:
         v = v.args[0]
+    # [E for i, x in enumerate(A)]: the position is an endless stream as well - unused, or only asked whether it is the first
+    if isinstance(v, (ast.ListComp, ast.GeneratorExp)) and len(v.generators) == 1 and not v.generators[0].ifs and \
+            isinstance(v.generators[0].iter, ast.Call) and isinstance(v.generators[0].iter.func, ast.Name) and \
+            v.generators[0].iter.func.id == 'enumerate' and len(v.generators[0].iter.args) == 1 and not v.generators[0].iter.keywords and \
+            isinstance(v.generators[0].target, ast.Tuple) and len(v.generators[0].target.elts) == 2 and \
+            all(isinstance(t, ast.Name) for t in v.generators[0].target.elts) and (ret.value is not v or isinstance(v, ast.ListComp)):
+        iname, xname = (t.id for t in v.generators[0].target.elts)
+        seq0 = v.generators[0].iter.args[0]
+
+        def uses_i(x_) -> bool:
+            return any(isinstance(y, ast.Name) and y.id == iname for y in ast.walk(x_))
+        if not uses_i(v.elt):
+            new_comp = ast.ListComp(elt=v.elt, generators=[ast.comprehension(target=ast.Name(id=xname, ctx=ast.Store()), iter=seq0,
+                                                                             ifs=[], is_async=0)])
+            new_ret = ast.copy_location(ast.Return(value=new_comp), ret)
+            ast.fix_missing_locations(new_ret)
+            return list(stmts[:-1]) + [new_ret]
+        if isinstance(v.elt, ast.IfExp) and ast.unparse(v.elt.test) in (f'{iname} == 0', f'0 == {iname}', f'not {iname}') and \
+                not uses_i(v.elt.body) and not uses_i(v.elt.orelse):
+            def sub_x(e_, repl):
+                class Sub(ast.NodeTransformer):
+                    def visit_Name(s_, node):
+                        return copy.deepcopy(repl) if node.id == xname and isinstance(node.ctx, ast.Load) else node
+                return Sub().visit(copy.deepcopy(e_))
+            new = list(stmts[:-1])
+            if isinstance(seq0, ast.Name):
+                lines = ast.Name(id=seq0.id, ctx=ast.Load())
+            else:
+                lines = ast.Name(id='lines__s', ctx=ast.Load())
+                new.append(ast.Assign(targets=[ast.Name(id='lines__s', ctx=ast.Store())], value=seq0))
+            new.append(ast.If(test=ast.UnaryOp(op=ast.Not(), operand=lines), body=[ast.Return(value=ast.List(elts=[], ctx=ast.Load()))], orelse=[]))
+            first = ast.List(elts=[sub_x(v.elt.body, ast.Subscript(value=lines, slice=ast.Constant(value=0), ctx=ast.Load()))], ctx=ast.Load())
+            tail = ast.ListComp(elt=copy.deepcopy(v.elt.orelse), generators=[ast.comprehension(
+                target=ast.Name(id=xname, ctx=ast.Store()),
+                iter=ast.Subscript(value=lines, slice=ast.Slice(lower=ast.Constant(value=1), upper=None, step=None), ctx=ast.Load()),
+                ifs=[], is_async=0)])
+            new.append(ast.Return(value=ast.BinOp(left=first, op=ast.Add(), right=tail)))
+            for st in new[len(stmts) - 1:]:
+                ast.copy_location(st, ret)
+                ast.fix_missing_locations(st)
+            return new
     elem = None          # (seq expr, stream, builder(x_expr, const) -> expr)
     if isinstance(v, ast.Call) and isinstance(v.func, ast.Name) and v.func.id == 'map' and len(v.args) == 3 and not v.keywords:
         stream = _constant_stream(v.args[2])
